@@ -84,3 +84,69 @@ func VerifH21FragSources() {
 		verifAssert(!impossible, "a plan is produced only when every fragment has a source")
 	}
 }
+
+// H21b: the same through the coordinator's job generation
+// (unprotectedGenerateResizeJobByAction), which builds the target cluster
+// itself: the instructions of the job name a valid source for every fragment
+// a node of the target membership newly owns.
+func VerifH21Job() {
+	n := 2 + verifChoice("nodes", verifBound("nodes", 2))
+	ids := verifNodeIDs(n + 1)
+	replicaN := 1 + verifChoice("replicas", verifBound("replicas", 2))
+	order := make([]int, n)
+	for i := range order {
+		order[i] = i
+	}
+	from := verifCluster(ids, order, replicaN)
+	from.Node = from.nodes[0]
+	from.Coordinator = from.nodes[0].ID
+	from.broadcaster = NopBroadcaster
+	shards := []uint64{0, 1, 2}[:verifBound("shards", 2)]
+	idx := verifResizeIndex(shards)
+	from.holder = &Holder{indexes: map[string]*Index{"i": idx}, Stats: stats.NopStatsClient}
+
+	var to *cluster
+	var action nodeAction
+	removed := ""
+	if verifChoice("action", 2) == 0 {
+		to = verifCluster(ids, append(append([]int{}, order...), n), replicaN)
+		action = nodeAction{node: &Node{ID: ids[n]}, action: resizeJobActionAdd}
+	} else {
+		k := verifChoice("removed", n)
+		var rest []int
+		for i := range order {
+			if i != k {
+				rest = append(rest, i)
+			}
+		}
+		removed = ids[k]
+		to = verifCluster(ids, rest, replicaN)
+		action = nodeAction{node: &Node{ID: ids[k]}, action: resizeJobActionRemove}
+	}
+	j, err := from.unprotectedGenerateResizeJobByAction(action)
+	verifReach("job generated")
+	if err != nil {
+		return // refusal is judged by VerifH21FragSources
+	}
+	for _, t := range to.nodes {
+		var srcs []*ResizeSource
+		for _, instr := range j.Instructions {
+			if instr.Node != nil && instr.Node.ID == t.ID {
+				srcs = append(srcs, instr.Sources...)
+			}
+		}
+		for _, s := range shards {
+			needs := verifAnd(verifOwns(to, t.ID, s), !verifOwns(from, t.ID, s))
+			named := false
+			for _, src := range srcs {
+				ok := verifAnd(src.Shard == s, verifAnd(src.Field == "f", src.View == viewStandard))
+				ok = verifAnd(ok, verifAnd(src.Node != nil, verifAnd(verifOwns(from, src.Node.ID, s), src.Node.ID != removed)))
+				named = verifOr(named, ok)
+			}
+			verifAssert(verifImplies(needs, named), "the job names a source for every fragment a target node newly owns")
+		}
+		if len(srcs) == 0 {
+			verifAssert(j.IDs[t.ID], "a node with nothing to fetch is already marked complete")
+		}
+	}
+}
